@@ -125,6 +125,11 @@ DropListeners(w, slot) ==
 PendListeners(pend) ==
     {pend[i].l : i \in {j \in DOMAIN pend : pend[j].k \in {"setret", "setconf"}}}
 
+\* is_connection_done
+Done(w) ==
+    \/ w.phase = "cliclosed"
+    \/ (w.phase \in {"srvclosing", "cliexc"} /\ w.out = <<>>)
+
 DropSenders(w, ls) ==
     [w EXCEPT !.lq = [x \in DOMAIN w.lq |-> IF x \in ls THEN [w.lq[x] EXCEPT !.tx = FALSE] ELSE w.lq[x]]]
 
@@ -176,7 +181,7 @@ RemoveAllSlots(w, ids, rep, cmsg) ==
                              !.cq = [c \in DOMAIN w.cq |->
                                         IF c \in csT THEN [w.cq[c] EXCEPT !.tx = FALSE, !.unsure = TRUE] ELSE w.cq[c]]]
          IN \* once the connection is in its final state the error is not reported any more
-            IF w.phase = "cliclosed" THEN DropSenders(w1, lsT)
+            IF Done(w) THEN DropSenders(w1, lsT)
             ELSE Fatal(DropSenders(w1, lsT),
                        IF \E n \in ids : Len(w.hs[w.slots[n].h].repq) >= 2 THEN "FrameUnexpected"
                        ELSE "EventLoopClientDropped")
@@ -260,7 +265,10 @@ ToListener(w, l, item) ==
 Dispatch(w, f) ==
     IF w.fatal # "" \/ w.gone THEN w
     ELSE IF w.phase = "cliexc" THEN w
-    ELSE IF w.phase \in {"srvclosing", "cliclosed"} THEN Fatal(w, "FrameUnexpected")
+    ELSE IF w.phase \in {"srvclosing", "cliclosed"}
+         THEN \* FrameUnexpected - which run_io_loop does not report once the connection has reached its
+              \* final state (the thread just ends)
+              IF Done(w) THEN Exit(w) ELSE Fatal(w, "FrameUnexpected")
     ELSE
     LET n == f.ch
         open == Has(w.slots, n)
@@ -401,11 +409,6 @@ SetBlocked(w, l) ==
 
 \* a whole frame left the output buffer
 Wrote(w) == [w EXCEPT !.out = Tail(@)]
-
-\* is_connection_done
-Done(w) ==
-    \/ w.phase = "cliclosed"
-    \/ (w.phase \in {"srvclosing", "cliexc"} /\ w.out = <<>>)
 
 \* normal termination happens as soon as the completion test succeeds
 Settle(x) == IF x.fatal = "" /\ ~x.gone /\ Done(x) THEN Exit(x) ELSE x
